@@ -13,7 +13,7 @@ fn nt14(_p: &Program, kinds: &[&'static str]) -> bool {
 }
 
 fn fam14() -> SurfaceFamily {
-    SurfaceFamily { prop: "C14", name: "clauses", max_len: 200, quick: 700, thorough: 12_000, decode: gen_c14, variants: one_variant, nontrivial: nt14 }
+    SurfaceFamily { prop: "C14", name: "clauses", max_len: 200, quick: 1350, thorough: 12_000, decode: gen_c14, variants: one_variant, nontrivial: nt14 }
 }
 
 fn custom14(tier: Tier, seed: u64, stats: &mut Stats) -> Result<(), String> {
@@ -45,7 +45,7 @@ fn nt13(p: &Program, kinds: &[&'static str]) -> bool {
 }
 
 fn fam13() -> SurfaceFamily {
-    SurfaceFamily { prop: "C13", name: "match", max_len: 160, quick: 700, thorough: 12_000, decode: gen_c13, variants: one_variant, nontrivial: nt13 }
+    SurfaceFamily { prop: "C13", name: "match", max_len: 160, quick: 1350, thorough: 12_000, decode: gen_c13, variants: one_variant, nontrivial: nt13 }
 }
 
 fn custom13(tier: Tier, seed: u64, stats: &mut Stats) -> Result<(), String> {
@@ -82,7 +82,7 @@ fn variants15(n: &Names) -> Vec<Names> {
 }
 
 fn fam15() -> SurfaceFamily {
-    SurfaceFamily { prop: "C15", name: "scopes", max_len: 200, quick: 350, thorough: 6_000, decode: gen_c15, variants: variants15, nontrivial: nt15 }
+    SurfaceFamily { prop: "C15", name: "scopes", max_len: 200, quick: 450, thorough: 6_000, decode: gen_c15, variants: variants15, nontrivial: nt15 }
 }
 
 fn custom15(tier: Tier, seed: u64, stats: &mut Stats) -> Result<(), String> {
